@@ -10,6 +10,7 @@ abbrev Str := List Char
     generated class table (`Generated/Classes.lean`), never by the harness. -/
 inductive Kind where
   | code        -- anything that is not one of the categories below
+  | codeCI      -- code whose quoted value is case-insensitive: the value string of a bit string literal (x"ff")
   | ws          -- parser.whitespace
   | cr          -- parser.carriage_return
   | blank       -- parser.blank_line
@@ -24,11 +25,11 @@ inductive Kind where
 
 def Kind.ofCode : Nat → Kind
   | 1 => .ws | 2 => .cr | 3 => .blank | 4 => .comment | 5 => .dcBegin | 6 => .dcText
-  | 7 => .dcEnd | 8 => .pragma | 9 => .preproc | 10 => .bof | _ => .code
+  | 7 => .dcEnd | 8 => .pragma | 9 => .preproc | 10 => .bof | 11 => .codeCI | _ => .code
 
 def Kind.toCode : Kind → Nat
   | .code => 0 | .ws => 1 | .cr => 2 | .blank => 3 | .comment => 4 | .dcBegin => 5 | .dcText => 6
-  | .dcEnd => 7 | .pragma => 8 | .preproc => 9 | .bof => 10
+  | .dcEnd => 7 | .pragma => 8 | .preproc => 9 | .bof => 10 | .codeCI => 11
 
 /-- layout: what phases 2–5 may create, delete or resize -/
 def Kind.isLayout : Kind → Bool
@@ -48,7 +49,7 @@ structure Tok where
   val  : Str
   deriving DecidableEq, Repr, Inhabited
 
-def Tok.isCode (t : Tok) : Bool := t.kind == .code
+def Tok.isCode (t : Tok) : Bool := t.kind == .code || t.kind == .codeCI
 def Tok.isLayout (t : Tok) : Bool := t.kind.isLayout
 def Tok.isCommentLike (t : Tok) : Bool := t.kind.isCommentLike
 def Tok.isBof (t : Tok) : Bool := t.kind == .bof
